@@ -148,10 +148,14 @@ def _flow_block(blocks, n, st, only_term=False):
             rv = s["rv"]
             if rv["k"] == "aggregate" and rv.get("variant") is not None:
                 st[l] = rv["variant"]
+                if rv.get("adt"):
+                    st[("adt", l)] = rv["adt"]
             elif rv["k"] == "use" and rv["ops"][0].get("k") in ("copy", "move") and not rv["ops"][0]["p"]:
                 m = rv["ops"][0]["l"]
                 if m in st:
                     st[l] = st[m]
+                    if ("adt", m) in st:
+                        st[("adt", l)] = st[("adt", m)]
                 if ("bool", m) in st:
                     st[("bool", l)] = st[("bool", m)]
             elif rv["k"] == "discr" and not rv["place"]["p"]:
@@ -167,6 +171,13 @@ def _flow_block(blocks, n, st, only_term=False):
             del st[k]
         cn = callee_name(t) or ""
         a0 = t["args"][0] if t["args"] else None
+        if "FromResidual" in cn and cn.endswith("::from_residual"):
+            # the failure arm of `x?`: the function's own result becomes Err(..) / None
+            dty = t.get("dest_ty") or ""
+            if dty.startswith("std::result::Result<"):
+                st[l] = "Err"
+            elif dty.startswith("std::option::Option<"):
+                st[l] = "None"
         if a0 is not None and a0.get("k") in ("copy", "move") and not a0["p"]:
             m = a0["l"]
             if cn.endswith("as std::ops::Try>::branch") and st.get(m) in ("Ok", "Err", "Some", "None"):
@@ -180,13 +191,28 @@ def _flow_block(blocks, n, st, only_term=False):
     return st
 
 
+def _variant_index(adt, name):
+    """discriminant value of a variant: Result / Option / ControlFlow by name, enums of the analysed crates by declaration order"""
+    if adt in (None, "std::result::Result", "std::option::Option", "std::ops::ControlFlow") and name in VARIANT_INDEX:
+        return VARIANT_INDEX[name]
+    from . import facts as _facts
+    F = _facts.CURRENT
+    a = F.adts.get(adt) if F is not None and adt else None
+    if a is not None and a.get("kind") == "Enum":
+        names = [v["name"] for v in a["variants"]]
+        if name in names and not any(v.get("discr") not in (None, i) for i, v in enumerate(a["variants"])):
+            return names.index(name)
+    return None
+
+
 def _feasible_succ(cfg, blocks, n, st):
     t = blocks[n]["term"]
     if t["k"] == "switch" and t["discr"].get("k") in ("copy", "move") and not t["discr"]["p"]:
         x = t["discr"]["l"]
         val = None
-        if ("discr", x) in st and st.get(st[("discr", x)]) in VARIANT_INDEX:
-            val = VARIANT_INDEX[st[st[("discr", x)]]]
+        if ("discr", x) in st and st.get(st[("discr", x)]) is not None and not isinstance(st.get(st[("discr", x)]), bool):
+            el = st[("discr", x)]
+            val = _variant_index(st.get(("adt", el)), st[el])
         elif ("bool", x) in st:
             val = 1 if st[("bool", x)] else 0
         if val is not None:
